@@ -11,7 +11,7 @@ def funcs : List (String × String) := [
   ("framework/module/msgmetadata.go:type MsgMetadata", "35edae60b069bca5"),
   ("internal/dsn/dsn.go:GenerateDSN", "cafaf64ea3d645c5"),
   ("internal/dsn/dsn.go:RecipientInfo.WriteTo", "b72ba0c09759afa4"),
-  ("internal/dsn/dsn.go:ReportingMTAInfo.WriteTo", "77fbdf28a15ed64c"),
+  ("internal/dsn/dsn.go:ReportingMTAInfo.WriteTo", "d90ce91c764fedd2"),
   ("internal/dsn/dsn.go:fieldText", "beeceb906ec22a29"),
   ("internal/dsn/dsn.go:type Action", "15ada61402c8abb1"),
   ("internal/dsn/dsn.go:type Envelope", "f0614c26e1fe659a"),
